@@ -20,6 +20,7 @@ RULE = ("FULL product over (n_in 1..4 [thorough 1..8], n_out 1..4 [1..8], EVERY 
 ASSUMPTIONS = ["vf/ref/bip143_ref.py transcribes BIP143; scriptCode is passed pre-serialised as the function's contract takes it"]
 OBLIGATIONS = {
     "concurrent_calls": "interleavings of two concurrent calls (single-case checks in two threads, cold and after warm-up calls)",
+    "long_history": "operations executed in one long history (>= 1000 distinct operations, forward / forward / reverse)",
     "history_sequences": "operation sequences (non-initial process states) explored",
     "long_structure": "a transaction with more than 1000 inputs or outputs",
     "single_index_ge_outputs": "SIGHASH_SINGLE with input index >= number of outputs",
@@ -144,7 +145,7 @@ def long_cases(seed):
 
 def jobs(tier, seed):
     from vf.runner import seq_jobs
-    return [{"name": f"msg/{sh}", "part": "msg", "shard": [sh, 16], "weight": 5} for sh in range(16)] + seq_jobs(2, weight=2) + __import__("vf.runner", fromlist=["x"]).concur_jobs(len(CONCUR_SCEN)) + \
+    return [{"name": f"msg/{sh}", "part": "msg", "shard": [sh, 16], "weight": 5} for sh in range(16)] + seq_jobs(2, weight=2) + __import__("vf.runner", fromlist=["x"]).long_jobs() + __import__("vf.runner", fromlist=["x"]).concur_jobs(len(CONCUR_SCEN)) + \
         [{"name": "long", "part": "long", "weight": 4}]
 
 
@@ -154,6 +155,9 @@ def run_job(job):
         ops = seq_ops(dict(job, shard=[0, 1]))
         scens = [{"threads": [ops[i] for i in sc[0]], "warm": [ops[i] for i in sc[1]], "post": [ops[i] for i in (sc[2] if len(sc) > 2 else ())]} for sc in CONCUR_SCEN]
         return run_concur_job(job, scens, run_case, PROPERTY, CONCUR_FILES)
+    if job["part"] == "longhist":
+        from vf.runner import run_long_job, default_long_ops
+        return run_long_job(job, default_long_ops(seq_ops, job), run_case)
     if job["part"] == "seq":
         from vf.runner import run_seq_job
         return run_seq_job(job, seq_ops(job), run_case, depth=3 if job["tier"] == "quick" else 4)
